@@ -53,14 +53,14 @@ TD = E.TD
 
 
 class Universe:
-    def __init__(self, rng, cell, gdim, itype="cell", complex_mode=False, only=None):
+    def __init__(self, rng, cell, gdim, itype="cell", complex_mode=False, only=None, coord_degree=1):
         self.rng = rng
         self.cell = cell
         self.tdim = TD[cell]
         self.gdim = gdim
         self.itype = itype
         self.complex_mode = complex_mode
-        self.mesh = E.mesh_for(cell, gdim)
+        self.mesh = E.mesh_for(cell, gdim, coord_degree)  # coord_degree > 1: non-affine cells (structural checks only)
         cat = E.catalogue(cell, gdim)
         if only is not None:
             cat = {k: v for k, v in cat.items() if k in only}
